@@ -95,7 +95,18 @@ def run(P, R, tier):
         last = fn.split('.')[-1]
         if last in ('min', 'max', 'amin', 'amax', 'nanmin', 'nanmax'):
             red += 1
-            nanaware = last.startswith('nan')
+            operand = c.args[0] if c.args else (c.func.value if isinstance(c.func, ast.Attribute) else None)
+            otxt = norm(operand) if operand is not None else ''
+            from effects import base_name
+            bn = base_name(operand) if operand is not None else None
+            if bn:
+                g0, d0 = astq.unique_def(tb, bn)
+                if isinstance(d0, ast.AST):
+                    otxt += ' <= ' + norm(d0)
+            # pandas reductions (also reached through np.min/np.max dispatch) skip NaN by default; numpy ones propagate it
+            is_numpy = any(k in otxt for k in ('.to_numpy(', '.values', 'np.asarray(', 'np.array(', '.to_records('))
+            skipna_off = any(k.arg == 'skipna' and norm(k.value) == 'False' for k in c.keywords)
+            nanaware = last.startswith('nan') or (not is_numpy and not skipna_off)
             R.check(nanaware, 'C06.b', tb, c, f'`{fn}` ignores NaN partition bounds',
                     f'`{norm(c)}` propagates NaN: one partition without any valid geometry (NaN bounds) turns the frame\'s total_bounds into NaN')
     R.floor('C06.b', 'reductions in DaskGeoSeries.total_bounds', red, 2)
@@ -103,15 +114,17 @@ def run(P, R, tier):
     for rt in rets:
         if isinstance(rt.value, ast.Tuple) and len(rt.value.elts) == 4:
             for i, e in enumerate(rt.value.elts):
-                if isinstance(e, ast.Call) and e.args:
+                if isinstance(e, ast.Call):
                     fn = norm(e.func).split('.')[-1]
                     col = None
-                    a = e.args[0]
+                    a = e.args[0] if e.args else None
                     if isinstance(a, ast.Subscript):
                         col = astq.const_str(a.slice)
                     elif isinstance(a, ast.Attribute):
                         col = a.attr
                     want_fn = 'min' if i < 2 else 'max'
+                    if col is None and isinstance(e.func, ast.Attribute) and isinstance(e.func.value, ast.Subscript):
+                        col = astq.const_str(e.func.value.slice)
                     ok = col == COLS[i] and want_fn in fn
                     R.check(ok, 'C06.b', tb, e, f'total_bounds[{i}] = {want_fn} over column {COLS[i]}',
                             f'total_bounds[{i}] is `{norm(e)}`: expected the NaN-ignoring {want_fn} over column {COLS[i]}')
